@@ -1,5 +1,6 @@
 """c07 — scheduler property; see sched_common.py."""
 import gen_common
+import par_common
 import sched_common
 
 DEP_FILES = ["SchedModel.v", "SchedLemmas.v", "SchedInv.v", "SchedInv2.v", "SchedProps.v", "SchedInv3.v", "SchedInv4.v", "SchedTheorems.v", "FlowOpModel.v", "FlowOpProofs.v", "FlowSaturated.v"]
@@ -10,4 +11,5 @@ def run(chk):
     chk.recheck_proofs()
     sched_common.apply(chk, PID, which=("full" if PID == "C19" else "core"))
     gen_common.apply(chk, PID)
+    par_common.apply(chk, PID)
     chk.assumptions += sched_common.ASSUMPTIONS.get(PID, []) + sched_common.ASSUMPTIONS["*"]
